@@ -430,4 +430,38 @@ def finalOf (cfg : Cfg) : Option Msg → List Outcome → Option Msg
   | some m, [] => some m
   | some m, o :: os => finalOf cfg (attempt cfg m o).msg os
 
+theorem zipDict_eq (rs : List Rcpt) (vs : List RRes) (acc : List (Rcpt × RRes)) (hn : rs.Nodup)
+    (hd : ∀ r ∈ rs, r ∉ acc.map Prod.fst) : zipDict rs vs acc = acc ++ rs.zip vs := by
+  induction rs generalizing vs acc with
+  | nil => simp [zipDict]
+  | cons r rest ih =>
+    cases vs with
+    | nil => simp [zipDict]
+    | cons v vs' =>
+      have hr : r ∉ acc.map Prod.fst := hd r (by simp)
+      have hany : acc.any (fun p => p.1 == r) = false := by
+        simp only [List.any_eq_false, beq_iff_eq]
+        intro p hp he
+        exact hr (List.mem_map.mpr ⟨p, hp, he⟩)
+      simp only [zipDict, hany, Bool.false_eq_true, if_false]
+      have hn' := List.nodup_cons.mp hn
+      rw [ih vs' (acc ++ [(r, v)]) hn'.2 ?_]
+      · simp
+      · intro r' hr' hmem
+        simp only [List.map_append, List.map_cons, List.map_nil, List.mem_append, List.mem_cons, List.not_mem_nil, or_false] at hmem
+        rcases hmem with hmem | rfl
+        · exact hd r' (by simp [hr']) hmem
+        · exact hn'.1 hr'
+
+/-- **A sequence result of the right length is complete**: the relay contract for relays that answer with a list (one value per
+    recipient, in envelope order) over distinct recipients. -/
+theorem sequence_complete (m : Msg) (hn : m.rcpts.Nodup) (l : List RRes) (hl : l.length = m.rcpts.length) :
+    CompleteOutcome m (.sequence l) := by
+  show Complete m (zipDict m.rcpts l [])
+  rw [zipDict_eq m.rcpts l [] hn (by simp)]
+  have hk : ((m.rcpts.zip l).map Prod.fst) = m.rcpts := by
+    rw [List.map_fst_zip]; omega
+  simp only [List.nil_append]
+  exact ⟨by rw [hk]; exact hn, hn, fun x => by rw [hk]⟩
+
 end Slimta.Attempt
